@@ -64,6 +64,10 @@ def lambda_rules(params):
     r = Rules("stl-lambda")
     r.add("R6.size_type", r"\btypename \w+::size_type\b", "size_t")
     r.extend(base_rules())
+    # a string built from a raw pointer range of another string (unchecked in C++: the range must lie inside the source)
+    r.add("R9.str.range", r"\bString\((\w+)->data\(\) \+ ([^,;]+), ([^;]+)\);", r"vseq_from_range(\1, \2, \3);")
+    r.add("R9.min", r"\bstd::min\(", "VERIF_MIN(")
+    r.add("R9.npos", r"\b(?:String|std::string)::npos\b", "NPOS")
     r.add("R9.str.pluseq", r"\breturn \(\*s \+= c\);", "vseq_push_back(s, c); return;")
     r.add("R9.resize2", r"\b(\w+)->resize\((\w+), (\w+)\)", r"vseq_resize_val(\1, \2, \3)")
     names = "|".join(params) if params else "verif_none"
